@@ -36,12 +36,15 @@ def check(run):
         run.guard("C17.6.every-selector", cfg, lambda: _rva(run, "C17.6.every-selector", F, cfg, ['cosmetic_filter_cache::CosmeticFilterCache::hidden_class_id_selectors'],
                   'Every selector stored under a requested class / id is returned unless it is excepted: an exception removes that selector only', minimum=3))
         run.guard("C17.1.partition", cfg, lambda: rule_partition(run, F, cfg))
+        from . import C16 as _C16g
+        bgo = run.borrow("C16", why="a generic rule filed in one of the five stores must stay there: nothing prunes the stores after the fact")
+        run.guard("C17.via.C16.4.storing", cfg + "/grow-only", lambda: _C16g.rule_stores_only_grow(bgo, F, cfg))
         run.guard("C17.2.prefix-agreement", cfg, lambda: rule_prefix(run, F, cfg))
         run.guard("C17.3.exception-on-every-emission", cfg, lambda: rule_emission(run, F, cfg))
         run.guard("C17.5.key-extraction", cfg, lambda: rule_key(run, F, cfg))
         run.guard("C17.5.key-extraction", cfg + "/css-ident", lambda: rule_css_ident(run, F, cfg))
         if cfg == "A":
-            b = run.borrow("C08", only=r"cosmetic_filter_cache::CosmeticFilterCache\.(simple_class_rules|simple_id_rules|complex_class_rules|complex_id_rules|misc_generic_selectors)\b",
+            b = run.borrow("C08", only=r"cosmetic_filter_cache::CosmeticFilterCache\.(?!specific_rules)\w+",
                            why="each generic-rule store must be serialized from, and restored into, itself")
             run.guard("C17.via.C08.1.state-coverage", cfg, lambda: _C08.rule_coverage(b, F, cfg))
             from . import C16 as _C16
@@ -262,12 +265,15 @@ def rule_key(run, F, cfg):
     # the three literals, compared as automata with their reference spelling (CSS Syntax: an identifier is made of
     # word characters, `-` and escapes; a hex escape is 1-6 hex digits optionally followed by ONE space that belongs to
     # the escape; any other escaped character stands for itself)
-    REF = {"RE_PLAIN_SELECTOR": ('"^[#.][\\\\w\\\\\\\\-]+"', "fast-path-regex",
-                                 "the Unicode-aware ^[#.][\\w\\\\-]+ (an ASCII-only scan truncates non-ASCII identifiers)"),
-           "RE_PLAIN_SELECTOR_ESCAPED": ('"^[#.](?:\\\\\\\\[0-9A-Fa-f]{1,6} ?|\\\\\\\\.|\\\\w|-)+"', "escaped-key-regex",
-                                         "^[#.](?:\\\\[0-9A-Fa-f]{1,6} ?|\\\\.|\\w|-)+"),
-           "RE_ESCAPE_SEQUENCE": ('"\\\\\\\\([0-9A-Fa-f]{1,6} ?|.)"', "escape-regex-is-css-escape",
-                                  "\\\\([0-9A-Fa-f]{1,6} ?|.): a hex escape needs no trailing space and has at most six digits")}
+    # CSS Syntax 3, section 4.3: an identifier code point is a letter, a digit, `_`, `-` or ANY non-ASCII code point
+    # (`.ad\U0001F3AFbox`, `#box\u2014 1`: F-C17-3); a hex escape is 1-6 hex digits optionally followed by ONE whitespace
+    # character that belongs to the escape (a filter line can hold a space, a tab or a form feed)
+    REF = {"RE_PLAIN_SELECTOR": (r'"^[#.](?:[A-Za-z0-9_\\\\-]|[^\\x00-\\x7F])+"', "fast-path-regex",
+                                 "^[#.](ident code point or backslash)+ with every non-ASCII code point an ident code point"),
+           "RE_PLAIN_SELECTOR_ESCAPED": (r'"^[#.](?:\\\\[0-9A-Fa-f]{1,6}[ \\t\\x0C]?|\\\\.|[A-Za-z0-9_-]|[^\\x00-\\x7F])+"', "escaped-key-regex",
+                                         "^[#.](?:hex escape with optional trailing whitespace|escaped character|ident code point)+"),
+           "RE_ESCAPE_SEQUENCE": (r'"\\\\([0-9A-Fa-f]{1,6}[ \\t\\x0C]?|.)"', "escape-regex-is-css-escape",
+                                  "backslash + (1-6 hex digits and at most one of space / tab / form feed | any one character)")}
     for nme, (ref, inst, text) in REF.items():
         okx, why = regex_equivalent(lit.get(nme, '""'), ref)
         run.ob("C17.5.key-extraction", inst, okx,
@@ -282,7 +288,18 @@ def rule_key(run, F, cfg):
            "key_from_selector applies RE_PLAIN_SELECTOR.find(selector)", config=cfg)
     # the value of a hex escape is read from its digits (the optional space stripped), base 16
     fr = [k.expr_call(t) for b, t in k.calls(r"^core::num::from_str_radix$")]
-    okh = len(fr) == 1 and bool(re.search(r"core::str::(strip_suffix|trim_end_matches)\(.*, ' '\)|core::str::trim_end\(", fr[0])) and fr[0].endswith(", 16)")
+    # the stripped character is the escape's own trailing whitespace: ' ' alone (before F-C17-3) or a predicate that
+    # accepts exactly {space, tab, form feed}
+    from analysis.guards import char_predicate_set as _cps
+    ws_ok = False
+    m_ws = re.search(r"core::str::(strip_suffix|trim_end_matches)\(.*, closure\[([^\]]+)\]\(\)\)", fr[0]) if fr else None
+    if m_ws and F.fns.get(m_ws.group(2)) is not None:
+        try:
+            ws_ok = set(_cps(F.fns[m_ws.group(2)]) or ()) == {" ", "\t", "\x0c"}
+        except Exception:
+            ws_ok = False
+    okh = len(fr) == 1 and fr[0].endswith(", 16)") and \
+        (bool(re.search(r"core::str::(strip_suffix|trim_end_matches)\(.*, ' '\)", fr[0])) or ws_ok)
     hexd = [c.expr_local(0) for c in F.closures_of(k.name) if "is_ascii_hexdigit" in c.expr_local(0)]
     run.ob("C17.5.key-extraction", "hex-value-from-digits", okh and len(hexd) == 1,
            f"the code point of a hex escape is from_str_radix(<capture without its trailing space>, 16), taken only for "
